@@ -1,6 +1,7 @@
 //! Impure Operations
 
 use serde_json::Value;
+use std::io::Write;
 
 use crate::error::Error;
 
@@ -10,6 +11,8 @@ use crate::error::Error;
 /// and the specification seems to indicate that the first argument is
 /// the only one considered, so we're doing the same.
 pub fn log(items: &Vec<&Value>) -> Result<Value, Error> {
-    println!("{}", items[0]);
+    // Like `console.log`, a line that cannot be written (closed pipe, full
+    // device) must not fail the evaluation; `println!` would panic there.
+    let _ = writeln!(std::io::stdout(), "{}", items[0]);
     Ok(items[0].clone())
 }
